@@ -1,0 +1,23 @@
+//go:build verif
+
+/*
+ * Simulation hooks, only compiled with build tag "verif". They change no behaviour:
+ * they expose unexported fields of the Network engine so that a deterministic simulator
+ * can inject its connection manager and observe the protocols and DAG state.
+ */
+
+package network
+
+import (
+	"github.com/nuts-foundation/nuts-node/network/dag"
+	"github.com/nuts-foundation/nuts-node/network/transport"
+)
+
+// SimSetConnectionManager injects the connection manager (simulation only). Call before Configure.
+func (n *Network) SimSetConnectionManager(cm transport.ConnectionManager) { n.connectionManager = cm }
+
+// SimProtocols returns the configured protocols (simulation only).
+func (n *Network) SimProtocols() []transport.Protocol { return n.protocols }
+
+// SimState returns the DAG state (simulation only).
+func (n *Network) SimState() dag.State { return n.state }
